@@ -2,13 +2,13 @@ package main
 
 import (
 	"encoding/json"
-	"sync/atomic"
 	"flag"
 	"fmt"
 	"os"
 	"path/filepath"
 	"sort"
 	"strings"
+	"sync/atomic"
 	"time"
 )
 
@@ -236,6 +236,10 @@ func main() {
 			for i, ob := range retry {
 				one := &FnEnc{e: retryEnc[i].e, name: retryEnc[i].name, kindN: map[string]int{}}
 				one.out.WriteString(retryEnc[i].out.String())
+				one.fn, one.segs, one.anc = retryEnc[i].fn, retryEnc[i].segs, map[int]map[int]bool{}
+				for b := range retryEnc[i].segs {
+					one.anc[retryEnc[i].segs[b].blk] = retryEnc[i].ancestors(retryEnc[i].segs[b].blk)
+				}
 				one.obls = []*Obligation{ob}
 				prev := ob.Result
 				atomic.StoreInt32(&nFailed, 0)
@@ -372,20 +376,23 @@ func main() {
 		}
 		expl := fmt.Sprintf("contract-based deductive verification: %d of %d obligations over %d functions under contract discharged by the solver portfolio; %d open known findings (%s); %d violations. Not covered by this check: see MANIFEST level_claimed.text and DESIGN.md.", nDis, nOb, len(funcsUnder), len(knownHit), strings.Join(failedNames, ", "), len(violations))
 		cov := map[string]interface{}{
-			"obligations":            nOb,
-			"discharged":             nDis,
-			"checker_cmd":            fmt.Sprintf("govc -prop %s -tier %s (go/ssa VC generation over %s working tree; z3 4.8.12 / z3 5.1.0 / cvc5 1.0 portfolio, %ds per solver)", *prop, *tier, *repo, timeout),
-			"trusted_base":           tb,
+			"obligations":              nOb,
+			"discharged":               nDis,
+			"checker_cmd":              fmt.Sprintf("govc -prop %s -tier %s (go/ssa VC generation over %s working tree; z3 4.8.12 / z3 5.1.0 / cvc5 1.0 portfolio, %ds per solver)", *prop, *tier, *repo, timeout),
+			"trusted_base":             tb,
 			"functions_under_contract": funcsUnder,
-			"obligations_by_kind":    byKind,
-			"discharged_by_solver":   bySolver,
-			"solver_seconds":         round3(solverTime),
-			"vacuity_covers":         fmt.Sprintf("%d of %d precondition covers not refuted", nCoverOK, nCover),
-			"samples":                samples,
-			"failed_obligations":     failedNames,
-			"known_findings_hit":     knownHit,
-			"integer_model":          "mathematical integers with exact wrap-around for 8/16/32-bit types and unsigned subtraction; 64-bit + and * treated as mathematical",
+			"obligations_by_kind":      byKind,
+			"discharged_by_solver":     bySolver,
+			"solver_seconds":           round3(solverTime),
+			"vacuity_covers":           fmt.Sprintf("%d of %d precondition covers not refuted", nCoverOK, nCover),
+			"samples":                  samples,
+			"failed_obligations":       failedNames,
+			"known_findings_hit":       knownHit,
+			"integer_model":            "mathematical integers with exact wrap-around for 8/16/32-bit types and unsigned subtraction; 64-bit + and * treated as mathematical",
 		}
+		cov["solver_queries_fresh"] = int(atomic.LoadInt32(&nFresh))
+		cov["verdicts_reused"] = int(atomic.LoadInt32(&nReused))
+		cov["verdict_store"] = "unsat answers are stored under the SHA-256 of the complete query text and reused when the regenerated query is byte-identical (the quick tier consults the store first; the thorough tier asks the solvers first and falls back to the store only on a timeout)"
 		cov["explanation"] = expl
 		mergeBounded(cov, *prop)
 		ev := map[string]interface{}{
